@@ -357,6 +357,8 @@ impl LightClientProtocol {
                 // For safety, just remove the block#1.
                 if prev_last_header_number == 1 {
                     info!("rollback to block#1 since previous last header number is 1");
+                    #[cfg(feature = "verif")]
+                    crate::verif_hooks::at(crate::verif_hooks::Point::LockIntent("commit_prove_state"));
                     let mut matched_blocks = self.peers.matched_blocks().write().expect("poisoned");
                     while let Some((start_number, _, _)) = self.storage.get_latest_matched_blocks()
                     {
@@ -385,6 +387,8 @@ impl LightClientProtocol {
                 });
                 if let Some(to_number) = fork_number {
                     debug!("fork to number: {}", to_number);
+                    #[cfg(feature = "verif")]
+                    crate::verif_hooks::at(crate::verif_hooks::Point::LockIntent("commit_prove_state"));
                     let mut matched_blocks = self.peers.matched_blocks().write().expect("poisoned");
                     let mut start_number_opt = None;
                     while let Some((start_number, _, _)) = self.storage.get_latest_matched_blocks()
@@ -715,6 +719,8 @@ impl LightClientProtocol {
 
     fn get_idle_blocks(&mut self, nc: &dyn CKBProtocolContext) {
         let tip_header = self.storage.get_tip_header();
+        #[cfg(feature = "verif")]
+        crate::verif_hooks::at(crate::verif_hooks::Point::LockIntent("light_client.read"));
         let matched_blocks = self.peers.matched_blocks().read().expect("poisoned");
         prove_or_download_matched_blocks(
             Arc::clone(&self.peers),
